@@ -8,6 +8,7 @@
 //   op cuts   n                     (kill points strictly inside each write: n interior offsets)
 //   op epoch  t                     (simulated clock)
 //   op rerun  epoch shortw          (execute the same argv again under another epoch / write chunking)
+//   op prior  seed n ; nuclide      (an earlier complete run on the SAME basename: its .d0t/.d0c are what this run finds)
 //
 // Oracles: equal to the library API (reference written against the public API only); byte-identical
 // reruns; companion file reports the effective settings; at EVERY kill point (after each write(2)
@@ -166,7 +167,10 @@ std::map<std::string, std::string> parse_kv(const std::string & d0c)
 
 struct RunResult { int rc = -99; std::string d0t, d0c; bool d0t_exists = false, d0c_exists = false; i64 crash_points = 0; std::string kill_violation; };
 
-RunResult run_program(const std::vector<std::string> & tokens, const std::string & base, const std::string * expect_d0t)
+/// files left behind on the same basename by an earlier, complete run (empty strings: none)
+struct Stale { std::string d0t, d0c; bool any() const { return !d0c.empty(); } };
+
+RunResult run_program(const std::vector<std::string> & tokens, const std::string & base, const std::string * expect_d0t, const Stale * stale = nullptr)
 {
   RunResult rr;
   std::vector<std::string> store; store.push_back("bxdecay0-run");
@@ -175,11 +179,19 @@ RunResult run_program(const std::vector<std::string> & tokens, const std::string
   for (auto & s : store) argv.push_back(const_cast<char *>(s.c_str()));
   argv.push_back(nullptr);
   std::string t_path = base + ".d0t", c_path = base + ".d0c";
-  fs::remove(t_path); fs::remove(c_path);
+  if (!stale || !stale->any()) { fs::remove(t_path); fs::remove(c_path); }
   i64 cp0 = fs::stats().crash_points;
   fs::set_crash_observer([&]() {
     // a process kill at this instant leaves exactly these bytes behind
-    if (!expect_d0t || !rr.kill_violation.empty()) return;
+    if (!rr.kill_violation.empty()) return;
+    // the untouched pair of an earlier complete run on the same basename is consistent by itself
+    if (stale && stale->any() && fs::get(c_path) == stale->d0c && fs::get(t_path) == stale->d0t) return;
+    if (!expect_d0t) {
+      if (has_marker(fs::get(c_path)))
+        rr.kill_violation = "kill point #" + std::to_string(fs::stats().crash_points - cp0) + ": the companion file carries '@status=0' (left by an earlier run on the same basename) while the event file has already been "
+                            "changed by a run that is going to be refused (" + std::to_string(fs::get(t_path).size()) + " bytes left)";
+      return;
+    }
     if (has_marker(fs::get(c_path)) && fs::get(t_path) != *expect_d0t)
       rr.kill_violation = "kill point #" + std::to_string(fs::stats().crash_points - cp0) + ": .d0c already carries '@status=0' while .d0t holds "
                           + std::to_string(count_records(fs::get(t_path))) + " of " + std::to_string(count_records(*expect_d0t)) + " records ("
@@ -203,7 +215,7 @@ Outcome run_run(const Plan & plan, const RunCtx & ctx)
   Settings s; bool have = false;
   std::vector<const Op *> junk;
   i64 wkind = 0, warg = 0, cuts = 0, epoch = 1600000000;
-  const Op * rerun = nullptr;
+  const Op * rerun = nullptr; const Op * prior = nullptr;
   for (const Op & op : plan.ops) {
     if (op.k == "cl") { s = settings_of(op); have = true; }
     else if (op.k == "junk") junk.push_back(&op);
@@ -211,6 +223,7 @@ Outcome run_run(const Plan & plan, const RunCtx & ctx)
     else if (op.k == "cuts") cuts = op.arg(0);
     else if (op.k == "epoch") epoch = op.arg(0);
     else if (op.k == "rerun") rerun = &op;
+    else if (op.k == "prior") prior = &op;
   }
   if (!have) { out.trace = 1; return out; }
   std::string base = fs::root() + "/run/out";
@@ -230,6 +243,7 @@ Outcome run_run(const Plan & plan, const RunCtx & ctx)
       if (!vals.empty()) { tokens[vals[(size_t)(j->arg(0) % (i64)vals.size())]] = j->str(0); malformed = true; }
     }
     else if (kind == 3 && s.basestyle != 4) { tokens.push_back("second-positional"); malformed = true; } // a second basename
+    else if (kind == 4) { tokens.insert(tokens.begin(), "1"); tokens.insert(tokens.begin(), j->str(0)); malformed = true; } // near-miss spelling of a real option, with a value
   }
   auto violation = [&](const std::string & cls, const std::string & sig, const std::string & what) {
     if (!check) return;
@@ -247,9 +261,20 @@ Outcome run_run(const Plan & plan, const RunCtx & ctx)
   else if (wkind == 3) { fs::faults().eio_at_write = std::max<i64>(0, warg); lossy = true; }
   else if (wkind == 4) { fs::faults().eio_at_write = std::max<i64>(0, warg); fs::faults().eio_write_persistent = false; lossy = true; }
   fs::faults().interior_cuts = (int)cuts; fs::faults().cut_key = plan.hash();
+  // an earlier, complete, fault-free run on the same basename: its files are what this run finds
+  Stale stale;
+  if (prior && s.basestyle != 4) {
+    fs::Faults saved = fs::faults(); fs::faults() = fs::Faults();
+    fs::set_time(epoch - 86400);
+    std::vector<std::string> pt = {"-s", std::to_string(prior->arg(0)), "-n", std::to_string(std::max<i64>(1, prior->arg(1))), "-c", "background", "-N", prior->str(0), base};
+    RunResult pr = run_program(pt, base, nullptr);
+    fs::faults() = saved;
+    if (has_marker(pr.d0c) && count_records(pr.d0t) == (size_t)std::max<i64>(1, prior->arg(1))) { stale.d0t = pr.d0t; stale.d0c = pr.d0c; out.ctr["runs_on_a_basename_with_stale_files"]++; }
+    else { fs::remove(base + ".d0t"); fs::remove(base + ".d0c"); }
+  }
   fs::set_time(epoch);
   i64 w_err0 = fs::stats().write_errors + fs::stats().enospc;
-  RunResult rr = run_program(tokens, base, ref.refused ? nullptr : &ref.d0t);
+  RunResult rr = run_program(tokens, base, ref.refused ? nullptr : &ref.d0t, &stale);
   bool write_fault_fired = (fs::stats().write_errors + fs::stats().enospc) > w_err0;
   fs::faults() = fs::Faults();
   tr.add((u64)rr.rc); tr.adds(rr.d0t); tr.adds(rr.d0c);
@@ -266,18 +291,22 @@ Outcome run_run(const Plan & plan, const RunCtx & ctx)
   if (ref.refused) {
     outcome = "refused";
     out.ctr["command_lines_refused"]++;
-    // refusal: no event record may exist at exit
-    if (nrec > 0 || rr.d0t.find_first_not_of(" \n\t") != std::string::npos)
+    bool untouched = stale.any() && rr.d0t == stale.d0t && rr.d0c == stale.d0c;
+    if (!rr.kill_violation.empty()) violation("stale-marker-with-changed-event-file", "stale-marker-with-changed-event-file " + std::string(ref.refused ? "refused" : "accepted"), rr.kill_violation);
+    // refusal: no event record may exist at exit (unless the files of an earlier run were left untouched)
+    if (untouched) out.ctr["probe_refused_line_left_stale_files_untouched"]++;
+    else if (nrec > 0 || rr.d0t.find_first_not_of(" \n\t") != std::string::npos)
       violation("events-written-for-refused-line", "events-written-for-refused-line " + clclass,
                 "the reference refuses this command line (" + ref.why + ") but the program wrote " + std::to_string(nrec) + " event record(s)");
-    if (has_marker(rr.d0c)) violation("marker-for-refused-line", "marker-for-refused-line " + clclass, "'@status=0' written although the command line is refused (" + ref.why + ")");
+    if (has_marker(rr.d0c) && !untouched) violation("marker-for-refused-line", "marker-for-refused-line " + clclass, "'@status=0' written although the command line is refused (" + ref.why + ")");
   } else if (!write_fault_fired) {
     outcome = "complete";
     out.ctr["command_lines_accepted"]++;
     if (!rr.kill_violation.empty()) violation("marker-before-complete-at-kill-point", "marker-before-complete-at-kill-point", rr.kill_violation);
     size_t n = s.n >= 0 ? (size_t)s.n : 1;
     if (rr.d0t != ref.d0t) {
-      if (nrec == 0 && !has_marker(rr.d0c)) { out.ctr["diag_program_refuses_what_the_api_accepts"]++; outcome = "over-refused"; }
+      bool untouched2 = stale.any() && rr.d0t == stale.d0t && rr.d0c == stale.d0c;
+      if ((nrec == 0 && !has_marker(rr.d0c)) || untouched2) { out.ctr["diag_program_refuses_what_the_api_accepts"]++; outcome = "over-refused"; }
       else violation("event-file-differs-from-api", "event-file-differs-from-api " + clclass,
                      "the .d0t file (" + std::to_string(nrec) + " records, " + std::to_string(rr.d0t.size()) + " bytes) differs from what the library API yields for the same seed and settings ("
                          + std::to_string(n) + " records, " + std::to_string(ref.d0t.size()) + " bytes)");
@@ -389,8 +418,10 @@ Plan gen_run(u64 seed, u64 idx, const RunCtx & ctx)
     static const std::vector<std::string> unknown = {"--frobnicate", "-z", "--nbevents", "-"};
     static const std::vector<std::string> known = {"--seed", "-n", "-N", "--pgop-mdl-rank", "-a", "-e", "-b", "-g", "-s", "-c", "-m", "-l", "--pgop-mdl-cone-phi"};
     static const std::vector<std::string> garbage = {"abc", "", "--", "-5"};
-    Op j; j.k = "junk"; u64 k = r.below(4);
-    j.a = {(i64)r.below(30), (i64)k}; j.s = {k == 0 ? r.pick(unknown) : (k == 1 ? r.pick(known) : (k == 2 ? r.pick(garbage) : std::string("x")))};
+    static const std::vector<std::string> nearmiss = {"--pgop-mdl-cone-apperture", "--pgop-mdl-cone-aperture2", "--pgop-mdl-", "--pgop-mdl-cone", "--pgop-mdl-particles", "--pgop-xyz-rank",
+                                                     "--dbd-emid", "--dbd-emin-MeV", "--seeds", "--nuclides", "--nb-event", "--levels", "--dbd-modes", "--activity-Bq", "--decay-categories", "--basenames", "--loggings", "-S", "-L", "-M"};
+    Op j; j.k = "junk"; u64 k = r.below(5);
+    j.a = {(i64)r.below(30), (i64)k}; j.s = {k == 0 ? r.pick(unknown) : (k == 1 ? r.pick(known) : (k == 2 ? r.pick(garbage) : (k == 4 ? r.pick(nearmiss) : std::string("x"))))};
     p.ops.push_back(j);
   }
   u64 f = idx % 4;
@@ -398,6 +429,7 @@ Plan gen_run(u64 seed, u64 idx, const RunCtx & ctx)
   else if (f == 2) { Op w; w.k = "wfault"; u64 k = r.below(3); w.a = {(i64)(2 + k), k == 0 ? r.range(0, 6000) : r.range(0, 60)}; p.ops.push_back(w); }
   if (r.chance(0.5)) { Op o; o.k = "cuts"; o.a = {r.range(1, 3)}; p.ops.push_back(o); }
   if (r.chance(0.5)) { Op o; o.k = "epoch"; o.a = {(i64)r.below(4000000000ULL)}; p.ops.push_back(o); }
+  if (r.chance(0.3)) { Op o; o.k = "prior"; o.a = {(i64)r.below(1000), r.range(1, 6)}; o.s = {r.pick(std::vector<std::string>{"Co60", "K40", "Cs137+Ba137m", "Tl208"})}; p.ops.push_back(o); }
   if (r.chance(0.4)) { Op o; o.k = "rerun"; o.a = {(i64)r.below(4000000000ULL), r.chance(0.5) ? r.range(1, 50) : 0}; p.ops.push_back(o); }
   return p;
 }
